@@ -10,6 +10,7 @@ import (
 	"reflect"
 	"strconv"
 	"strings"
+	"sync"
 
 	ebu "github.com/jilio/ebu"
 )
@@ -111,7 +112,29 @@ func (d *drv[T]) Shard() int {
 	return int(h.Sum32() & 31)
 }
 
+// optCache: applications keep option values (and whole option slices) around and pass the same ones
+// to many Subscribe calls; so does the harness for every filterless option combination.
+var optCache sync.Map // [3]bool -> []ebu.SubscribeOption
+
 func (d *drv[T]) opts(o SubOpts) []ebu.SubscribeOption {
+	if o.Filter == nil {
+		key := [3]bool{o.Once, o.Async, o.Seq}
+		if v, ok := optCache.Load(key); ok {
+			return v.([]ebu.SubscribeOption)
+		}
+		var shared []ebu.SubscribeOption
+		if o.Once {
+			shared = append(shared, ebu.Once())
+		}
+		if o.Async {
+			shared = append(shared, ebu.Async())
+		}
+		if o.Seq {
+			shared = append(shared, ebu.Sequential())
+		}
+		v, _ := optCache.LoadOrStore(key, shared)
+		return v.([]ebu.SubscribeOption)
+	}
 	var r []ebu.SubscribeOption
 	if o.Once {
 		r = append(r, ebu.Once())
